@@ -106,6 +106,17 @@ def run(ctx):
         ctx.ob('2e no-stage-reentered-after-error', 'K1-must-pass', kl.path,
                'with a background error recorded, kill_logs re-enters no pipeline stage (the log reader may be in an inconsistent state)', bool(some) and w is None and len(stages) >= 6,
                '' if w is None else lib.short_path(kl, w))
+    if kl:
+        # ... and deletes no log file except the enacted ones that clean_all_logs retires: the file the failed applier stopped in
+        # (Log.reading) holds the half-applied record and everything behind it - synced commits that the next open has to replay
+        # (seed C16-error-shutdown-deletes-reading-log: Log::kill_logs unlinks that file along with the pool)
+        some = lib.prune_option_field(kl, '.DbInner.bg_err', keep_some=True)
+        unlinkers = set(F.transitive_callers(F.direct_callers_of('std::fs::remove_file'))) | set(F.direct_callers_of('std::fs::remove_file'))
+        dels = [bi for bi, t in kl.calls() if bi in kl.normal_blocks() and any(n in unlinkers and n.startswith('log::') for n in call_names(t))]
+        w = kl.find_path([0], set(dels), removed_edges=some) if some else ['?']
+        ctx.ob('2e2 no-log-file-deleted-after-error', 'K1-must-pass', kl.path,
+               'with a background error recorded, kill_logs calls nothing of the log that unlinks files (the log being read holds synced, unapplied records): only clean_all_logs retires what was enacted',
+               bool(some) and w is None and len(dels) >= 1, 'no unlinking call of the log found in kill_logs at all' if not dels else ('' if w is None else lib.short_path(kl, w)))
     cr = ctx.body('db::DbInner::commit_raw')
     if cr:
         some = lib.prune_option_field(cr, '.DbInner.bg_err', keep_some=True)
